@@ -28,12 +28,18 @@ def run_one(run, drv, P, scratch, params):
     c.killed = killed
     # locks the dead workers held when they died
     held = {}
+    attempting = {}
     for e in c.trace:
-        if e[0] == 'lock' and e[3]:
-            held[e[1]] = e[2]
+        if e[0] == 'lockAttempt':
+            attempting[e[1]] = e[2]
+        elif e[0] == 'lock':
+            attempting.pop(e[1], None)
+            if e[3]:
+                held[e[1]] = e[2]
         elif e[0] == 'unlock':
             held.pop(e[1], None)
-    dead_locks = {t for w, t in held.items() if w in killed}
+    # a worker killed inside lock.get() may or may not have created the lock file already
+    dead_locks = {t for w, t in held.items() if w in killed} | {t for w, t in attempting.items() if w in killed}
     # 1. complete results survive and are correct
     dumped = {e[2] for e in c.trace if e[0] == 'dump'} | set(c.res0)
     for t in sorted(dumped - set(c.final)):
@@ -56,7 +62,11 @@ def run_one(run, drv, P, scratch, params):
     X.model_check(run, drv, P, c, 'run with killed workers', params)
     # 4. recovery: cleanup --locks-only, then a fresh execute
     before = dict(c.final)
-    out = cleanup_locks_only(c.backend)
+    try:
+        out = cleanup_locks_only(c.backend)
+    except Exception as e:
+        X.fail_case(run, 'cleanup-locks-only-raises', '`jug cleanup --locks-only` after a kill raised %s: %s (locks %s)' % (type(e).__name__, e, c.locks), P, params)
+        return c
     final_r, locks_r = X.final_state(P, c.backend)
     if locks_r:
         X.fail_case(run, 'cleanup-locks-only', 'cleanup --locks-only left locks %s (%s)' % (locks_r, out), P, params)
@@ -92,8 +102,8 @@ def check(run):
         for pi in range(nprog):
             P = E.prepare(rng, scratch, rng.choice([4, 6, 9]) if quick else rng.choice([4, 6, 9, 14]))
             # how many gates does a lone worker pass?
-            probe = X.run_params(P, scratch, {'backend': 'dict', 'nworkers': 1, 'sched_seed': 1}, X.newtag())
-            ngates = len(probe.trace) + 2
+            probe = X.run_params(P, scratch, {'backend': 'file', 'nworkers': 1, 'sched_seed': 1, 'fs_gates': True}, X.newtag())
+            ngates = sum(probe.gates.values()) + 2
             ks = list(range(1, ngates + 1))
             if quick:
                 ks = rng.sample(ks, min(7, len(ks)))
@@ -102,7 +112,7 @@ def check(run):
                 kp = {0: k}
                 if nw == 3 and rng.random() < 0.3:
                     kp[1] = rng.randint(1, ngates)
-                params = {'backend': X.BACKENDS[j % 4], 'nworkers': nw, 'sched_seed': rng.randrange(10 ** 9), 'kill_plan': kp,
+                params = {'backend': X.BACKENDS[j % 4], 'nworkers': nw, 'sched_seed': rng.randrange(10 ** 9), 'kill_plan': kp, 'fs_gates': X.BACKENDS[j % 4] in ('file', 'filepack'),
                           'pre_done': max(1, P['n'] // 3) if X.BACKENDS[j % 4] == 'filepack' else 0, 'flags': {w: [False, False, rng.random() < 0.3] for w in range(nw)}}
                 c = run_one(run, drv, P, scratch, params)
                 run.case((pi, k, run.seed), nontrivial=bool(c.locks))
